@@ -83,6 +83,16 @@ def r2_tokens_carry_no_layout(ctx):
     mc = [c for c in cm.calls() if (c.callee or "").endswith("memchr2")]
     if mc and {mc[0].args[0].get("int"), mc[0].args[1].get("int")} == {10, 13}:
         ctx.ok("comment-ends-at-line-break", cm.where(mc[0].block), "a comment ends at the first LF or CR")
+        # ... the first one *from the cursor on*: the haystack starts at the cursor and the search at its offset 0.  A
+        # search that starts further in steps over the line break of a short (empty) comment and swallows the next line.
+        hay = sh(ne(cm.deep(mc[0].args[2]))).replace(" ", "")
+        off = mc[0].args[3].get("int") if len(mc[0].args) > 3 and isinstance(mc[0].args[3], dict) else None
+        if off == 0 and re.search(r"Range::Range\{self\.pos,", hay):
+            ctx.ok("comment-search-starts-at-cursor", cm.where(mc[0].block), "memchr2(.., src[pos..], 0)")
+        elif off is not None and re.search(r"^self\.src$|^\*?self\.src$", hay) and sh(ne(cm.deep(mc[0].args[3]))) == "self.pos":
+            ctx.ok("comment-search-starts-at-cursor", cm.where(mc[0].block), "memchr2(.., src, pos)")
+        else:
+            ctx.bad("comment-search-starts-at-cursor|%s" % (off if off is not None else sh(ne(cm.deep(mc[0].args[3])))[:16]), cm.where(mc[0].block), "the search for the end of a comment does not start at the cursor (haystack `%s`, offset %s): the line break that ends a comment shorter than that offset - an empty `#` line - is not seen, and the following source line is swallowed into the comment" % (hay[:40], off))
     else:
         ctx.bad("comment-ends-at-line-break", cm.where(), "skip_comment does not stop at the first LF / CR: with CR-only or CRLF line ends the comment swallows the following line(s)")
 
@@ -275,6 +285,9 @@ EXPLANATION = (
 )
 EXPLANATION += (
     " Added after seeded changes were missed: R1 whatever follows a whitespace skip (the word comparison in try_consume_word, the return of skip_whitespace) is reachable only through the loop's own exit - no fixed-width shortcut; R5 the group's content is parsed from binding power 0 and every operand - a group included - continues with the enclosing call's min_bp through the one shared continuation; R6 read_word moves the cursor only over a byte tested alphabetic / digit / underscore, so every other byte - `#` included - ends a word."
+)
+EXPLANATION += (
+    " R2 also: the search for the end of a comment starts at the cursor (offset 0 of a haystack that begins at pos)."
 )
 ASSUMPTIONS = ["layout bytes are exactly those accepted by u8::is_ascii_whitespace"]
 TRUSTED = ["rustc nightly MIR", "nsx exporter", "nsverif reachability"]
